@@ -28,25 +28,25 @@ Theorem C17_write_exact_partial :
     Forall send_ev_ok tr /\ map fst tr = ops.
 Proof. exact write_exact_new. Qed.
 
-(* corollary used for finish: whenever nothing is waiting in `writing`, everything accepted has been handed over *)
-Theorem C17_nothing_pending_all_handed_partial :
+(* finish: for every program (abandoned writes included) and every oracle, when poll_finish answers Ready(Ok)
+   every buffer send_data accepted has been handed to Quinn completely, in order, BEFORE the stream is finished
+   (poll_finish drains `writing` first; Pending while Quinn pends; a write error is returned instead) *)
+Theorem C17_finish_hands_over_everything_partial :
   forall ops id o tr s' o',
-    send_run ops (send_new (qsend_new id)) o = (tr, s', o') -> s_writing s' = None ->
+    send_run (ops ++ [OPollFinish]) (send_new (qsend_new id)) o = (tr, s', o') ->
+    (exists tr0, tr = tr0 ++ [(OPollFinish, SRPoll (Ready (Ok tt)))]) ->
+    s_writing s' = None /\ qs_finished (s_q s') = true /\
     qs_log (s_q s') = spec_handed (map abs_send tr).
-Proof. exact nothing_pending_all_handed. Qed.
+Proof. exact finish_hands_over_everything. Qed.
 
-(* REFUTED: "poll_finish Ok => every accepted buffer reached Quinn".  poll_finish ignores `writing`; reachable
-   through h3's public API: drop the future of RequestStream::send_data while it is pending (timeout/select),
-   then call finish() (no grease frame left to send): finish returns Ok, the peer sees a clean FIN after a
-   truncated DATA frame.  Witness replayed on real Quinn by the `cfin` cases of the harness. *)
-Theorem C17_finish_while_writing_refuted :
-  let ops := [OSendData [[0; 4]; [1; 2; 3; 4]]; OPollReady; OPollFinish] in
-  let o := [WAccept 2; WAccept 1; WBlocked] in
+Example C17_finish_after_abandoned_write_inhabited :
+  let ops := [OSendData [[0; 4]; [1; 2; 3; 4]]; OPollReady; OPollFinish; OPollFinish] in
+  let o := [WAccept 2; WAccept 1; WBlocked; WAccept 2; WBlocked; WAccept 100] in
   exists tr s' o', send_run ops (send_new (qsend_new 0)) o = (tr, s', o') /\
-    map snd tr = [SRUnit (Ok tt); SRPoll Pending; SRPoll (Ready (Ok tt))] /\
-    qs_finished (s_q s') = true /\
-    qs_log (s_q s') = [0; 4; 1] /\ spec_handed (map abs_send tr) = [0; 4; 1; 2; 3; 4].
-Proof. exact finish_while_writing_truncates. Qed.
+    map snd tr = [SRUnit (Ok tt); SRPoll Pending; SRPoll Pending; SRPoll (Ready (Ok tt))] /\
+    qs_finished (s_q s') = true /\ s_writing s' = None /\
+    qs_log (s_q s') = [0; 4; 1; 2; 3; 4].
+Proof. exact finish_after_abandoned_write. Qed.
 
 (* when poll_ready answers Ready(Ok) nothing is left waiting: Quinn has been handed exactly the accepted buffers *)
 Theorem C17_write_complete_partial :
@@ -240,8 +240,7 @@ Example C17_recv_inhabited :
 Proof. do 4 eexists. split; [vm_compute; reflexivity|]. split; [vm_compute; reflexivity|]. repeat split. Qed.
 
 Print Assumptions C17_write_exact_partial.
-Print Assumptions C17_nothing_pending_all_handed_partial.
-Print Assumptions C17_finish_while_writing_refuted.
+Print Assumptions C17_finish_hands_over_everything_partial.
 Print Assumptions C17_overlapping_poll_send_refused.
 Print Assumptions C17_close_code.
 Print Assumptions C17_write_complete_partial.
